@@ -452,6 +452,9 @@ func writeEvidence(id, tier string, seed int, def *PropDef, results []*FuncResul
 		for _, u := range r.Unmodelled {
 			unmodelled[u] = true
 		}
+		for _, w := range r.Warnings {
+			assumptions["warning: "+w] = true
+		}
 		for _, s := range r.Stores {
 			stores[s] = true
 		}
